@@ -44,6 +44,29 @@ proof fn lemma_view_empty(m: BTreeMap<u16, VecDeque<Vec<u8>>>)
 { reveal(opts_view); assert(opts_view(m) =~= Map::<u16, Seq<Seq<u8>>>::empty()); }
 '''
 
+TYPED = r'''
+// ---- option_value.rs: the two private conversion functions are NOT read by Verus (iterator
+// fold / vec! / reverse); their contracts below are proved on the real functions, for all values
+// of all four widths, by the Kani harnesses uint_encode_* / uint_decode_* (kani/src/uints.rs)
+#[verifier::external_body]
+fn option_from_uint(value_as_u64: u64, value_size: usize) -> (r: Vec<u8>)
+    requires value_size == 1 || value_size == 2 || value_size == 4 || value_size == 8, (value_as_u64 as nat) < pow256(value_size as nat) || value_size == 8
+    ensures r@ == uint_be_min(value_as_u64 as nat)
+{ unimplemented!() }
+#[verifier::external_body]
+fn option_to_uint(encoded: &[u8], value_size: usize) -> (r: Result<u64, IncompatibleOptionValueFormat>)
+    requires value_size == 1 || value_size == 2 || value_size == 4 || value_size == 8
+    ensures encoded@.len() > value_size ==> r is Err, encoded@.len() <= value_size ==> r is Ok && r->Ok_0 as nat == be_val(encoded@)
+{ unimplemented!() }
+pub struct IncompatibleOptionValueFormat { pub message: String }
+// the generic From/TryFrom contract of vstd (r == from_spec(x)) cannot describe a Vec result up
+// to its contents, so it is switched off and each impl carries its own view-level ensures
+impl FromSpecImpl<OptionValueU16> for Vec<u8> { open spec fn obeys_from_spec() -> bool { false } open spec fn from_spec(v: OptionValueU16) -> Self { arbitrary() } }
+impl FromSpecImpl<OptionValueU32> for Vec<u8> { open spec fn obeys_from_spec() -> bool { false } open spec fn from_spec(v: OptionValueU32) -> Self { arbitrary() } }
+impl TryFromSpecImpl<Vec<u8>> for OptionValueU16 { open spec fn obeys_try_from_spec() -> bool { false } open spec fn try_from_spec(v: Vec<u8>) -> Result<Self, IncompatibleOptionValueFormat> { arbitrary() } }
+impl TryFromSpecImpl<Vec<u8>> for OptionValueU32 { open spec fn obeys_try_from_spec() -> bool { false } open spec fn try_from_spec(v: Vec<u8>) -> Result<Self, IncompatibleOptionValueFormat> { arbitrary() } }
+'''
+
 H = 'impl Header'
 P = 'impl Packet'
 
@@ -58,7 +81,12 @@ def build(repo):
     u.items('packet.rs', 'pub enum CoapOption', 'impl From<u16> for CoapOption', 'impl From<CoapOption> for u16')
     common.packet_struct(u)
     u.impl_fns('packet.rs', 'impl Packet', ['new', 'set_token', 'get_token', 'set_option', 'get_option', 'get_first_option',
-                                            'add_option', 'clear_option', 'clear_all_options'])
+                                            'add_option', 'clear_option', 'clear_all_options',
+                                            'add_option_as', 'get_first_option_as', 'set_observe_value', 'get_observe_value'])
+    u.prelude('uint.rs')
+    u.raw(TYPED, 'units/acc.py')
+    u.item('option_value.rs', 'pub trait OptionValueType')
+    u.expand_macro('option_value.rs', 'option_value_uint_impl', only=['OptionValueU16', 'OptionValueU32'])
     u.assemble()
     common.common_rules(u)
     common.header_contracts(u, PROPS)
@@ -162,5 +190,28 @@ def build(repo):
                 { opts_view(old(self).options).insert(u16_of_option(tp), Seq::<Seq<u8>>::empty()) } else { opts_view(old(self).options) }),
             same_but_options(*final(self), *old(self))''')
     u.contract((P, 'clear_all_options'), '''        ensures opts_view(final(self).options) == Map::<u16, Seq<Seq<u8>>>::empty(), same_but_options(*final(self), *old(self))''')
+    # ---- typed accessors (C06) -------------------------------------------------------------------
+    for ty, w in [('OptionValueU16', 2), ('OptionValueU32', 4)]:
+        u.contract(('impl From<%s> for Vec<u8>' % ty, 'from'), '            ensures r@ == uint_be_min(value.0 as nat)', props=['C06', 'C19'])
+        u.body_start(('impl From<%s> for Vec<u8>' % ty, 'from'), '            proof { lemma_pow256_values(); }')
+        u.contract(('impl TryFrom<Vec<u8>> for %s' % ty, 'try_from'), '''            ensures value@.len() > %d ==> r is Err,
+                value@.len() <= %d ==> r is Ok && r->Ok_0.0 as nat == be_val(value@)''' % (w, w), props=['C06', 'C19'])
+        u.body_start(('impl TryFrom<Vec<u8>> for %s' % ty, 'try_from'), '            proof { lemma_be_val_bound(value@); lemma_pow256_values(); if value@.len() <= %d { lemma_pow256_mono(value@.len(), %d); } }' % (w, w))
+        u.replace_in(('impl TryFrom<Vec<u8>> for %s' % ty, 'try_from'), 'R18:closure-contract', r'\|value_as_u64\| (\w+)\(value_as_u64 as (\w+)\)',
+                     r'|value_as_u64: u64| -> (o: \1) ensures o.0 == value_as_u64 as \2 { \1(value_as_u64 as \2) }')
+    u.contract((P, 'add_option_as'), '''        ensures exists|raw: Vec<u8>| call_ensures(<T as Into<Vec<u8>>>::into, (value,), raw)
+                && #[trigger] opts_view(final(self).options) == push_opt(opts_view(old(self).options), u16_of_option(tp), raw@),
+            same_but_options(*final(self), *old(self))''', props=['C06', 'C19'])
+    u.contract((P, 'get_first_option_as'), '''        ensures r is Some <==> (opts_view(self.options).contains_key(u16_of_option(tp)) && opts_view(self.options)[u16_of_option(tp)].len() > 0),
+            r is Some ==> exists|c: Vec<u8>| #[trigger] c@ == opts_view(self.options)[u16_of_option(tp)][0] && call_ensures(<T as TryFrom<Vec<u8>>>::try_from, (c,), r->0)''', props=['C06', 'C19'])
+    u.replace_in((P, 'get_first_option_as'), 'R18:closure-contract', r'\|value\| T::try_from\(value\.clone\(\)\)',
+                 '|value: &Vec<u8>| -> (o: Result<T, IncompatibleOptionValueFormat>) ensures exists|c: Vec<u8>| #[trigger] c@ == value@ && call_ensures(<T as TryFrom<Vec<u8>>>::try_from, (c,), o) { T::try_from(value.clone()) }')
+    u.contract((P, 'set_observe_value'), '''        ensures opts_view(final(self).options) == opts_view(old(self).options).insert(6, seq![uint_be_min(value as nat)]),
+            same_but_options(*final(self), *old(self))''', props=['C06', 'C15', 'C19'])
+    u.contract((P, 'get_observe_value'), '''        ensures r is Some <==> (opts_view(self.options).contains_key(6) && opts_view(self.options)[6].len() > 0),
+            r is Some ==> ({ let b = opts_view(self.options)[6][0];
+                (b.len() > 4 ==> r->0 is Err) && (b.len() <= 4 ==> r->0 is Ok && r->0->Ok_0 as nat == be_val(b)) })''', props=['C06', 'C19'])
+    u.replace_in((P, 'get_observe_value'), 'R18:closure-contract', r'\|option\| option\.map\(\|value\| value\.0\)',
+                 '|option: Result<OptionValueU32, IncompatibleOptionValueFormat>| -> (o: Result<u32, IncompatibleOptionValueFormat>) ensures option is Err ==> o is Err, option is Ok ==> o is Ok && o->Ok_0 == option->Ok_0.0 { option.map(|value: OptionValueU32| -> (x: u32) ensures x == value.0 { value.0 }) }')
     u.finish(common.HEAD)
     return u
